@@ -54,9 +54,39 @@ theorem mem_removeTxts (pn : Nat) (d : List DFile) (g : DFile) :
     g ∈ removeTxts pn d ↔ g ∈ d ∧ g ≠ .txt pn 0 ∧ g ≠ .txt pn 1 ∧ g ≠ .txt pn 2 := by
   simp [removeTxts, List.mem_filter]
 
+theorem sideFiles_pn (pd : Nat) (adr keep : List String) (g : DFile) (h : g ∈ sideFiles pd adr keep) : g.pn = pd := by
+  simp only [sideFiles, List.mem_flatMap, List.mem_map] at h
+  obtain ⟨a, _, e, _, rfl⟩ := h
+  rfl
+
+theorem cleanDir_sub (c : DelCfg) (pd : Nat) (adr : List String) (d : List DFile) (g : DFile)
+    (h : g ∈ cleanDir c pd adr d) : g ∈ d := by
+  unfold cleanDir at h
+  have h1 := ((mem_removeTxts _ _ _).mp h).1
+  cases hv : c.variant <;> simp only [hv] at h1
+  · exact h1
+  · exact (List.mem_filter.mp h1).1
+
+theorem cleanDir_removed (c : DelCfg) (pd : Nat) (adr : List String) (d : List DFile) (g : DFile)
+    (hg : g ∈ d) (hn : g ∉ cleanDir c pd adr d) : g.pn = pd := by
+  apply Classical.byContradiction
+  intro hne
+  apply hn
+  unfold cleanDir
+  rw [mem_removeTxts]
+  refine ⟨?_, ?_, ?_, ?_⟩
+  · cases hv : c.variant <;> simp only
+    · exact hg
+    · refine List.mem_filter.mpr ⟨hg, ?_⟩
+      simp only [decide_eq_true_eq]
+      exact fun hs => hne (sideFiles_pn _ _ _ _ hs)
+  · intro e; exact hne (e ▸ rfl)
+  · intro e; exact hne (e ▸ rfl)
+  · intro e; exact hne (e ▸ rfl)
+
 /-! ### `delHeadCore` -/
 
-theorem delHeadCore_disk_sub (da : Bool) (olds : List (Nat × List String)) (disk : List DFile) (dirs : List DDir)
+theorem delHeadCore_disk_sub (da : DelCfg) (olds : List (Nat × List String)) (disk : List DFile) (dirs : List DDir)
     (g : DFile) : g ∈ (delHeadCore da olds disk dirs).2.1 → g ∈ disk := by
   unfold delHeadCore
   split
@@ -65,11 +95,11 @@ theorem delHeadCore_disk_sub (da : Bool) (olds : List (Nat × List String)) (dis
     split
     · exact removeAll_sub _ _ g
     · split
-      · split <;> (intro h; exact removeAll_sub _ _ g ((mem_removeTxts _ _ _).mp h).1)
+      · split <;> (intro h; exact removeAll_sub _ _ g (cleanDir_sub _ _ _ _ _ h))
       · exact removeAll_sub _ _ g
 
 /-- only files of the head path disappear -/
-theorem delHeadCore_removed (da : Bool) (olds : List (Nat × List String)) (disk : List DFile) (dirs : List DDir)
+theorem delHeadCore_removed (da : DelCfg) (olds : List (Nat × List String)) (disk : List DFile) (dirs : List DDir)
     (g : DFile) (hg : g ∈ disk) (hn : g ∉ (delHeadCore da olds disk dirs).2.1) :
     ∃ pd adr rest, olds = (pd, adr) :: rest ∧ g.pn = pd := by
   unfold delHeadCore at hn
@@ -77,20 +107,12 @@ theorem delHeadCore_removed (da : Bool) (olds : List (Nat × List String)) (disk
   · exact absurd hg hn
   · rename_i pd adr rest
     refine ⟨pd, adr, rest, rfl, ?_⟩
-    have key : ∀ d', (∀ x, x ∈ disk → x ∉ List.map (DFile.acc pd) adr → x ∈ d') → g ∉ removeTxts pd d' → g.pn = pd := by
+    have key : ∀ d', (∀ x, x ∈ disk → x ∉ List.map (DFile.acc pd) adr → x ∈ d') → g ∉ cleanDir da pd adr d' → g.pn = pd := by
       intro d' hd' hnn
       by_cases hm : g ∈ List.map (DFile.acc pd) adr
       · obtain ⟨a, _, rfl⟩ := List.mem_map.mp hm
         rfl
-      · have := hd' g hg hm
-        rw [mem_removeTxts] at hnn
-        by_cases h0 : g = .txt pd 0
-        · rw [h0]; rfl
-        · by_cases h1 : g = .txt pd 1
-          · rw [h1]; rfl
-          · by_cases h2 : g = .txt pd 2
-            · rw [h2]; rfl
-            · exact absurd ⟨this, h0, h1, h2⟩ hnn
+      · exact cleanDir_removed da pd adr d' g (hd' g hg hm) hnn
     have key2 : g ∉ (removeAll (List.map (DFile.acc pd) adr) disk).1 → g.pn = pd := by
       intro hnn
       by_cases hm : g ∈ List.map (DFile.acc pd) adr
@@ -105,7 +127,7 @@ theorem delHeadCore_removed (da : Bool) (olds : List (Nat × List String)) (disk
       · exact key2 hn
 
 /-- on success the head is popped and its files are gone; on failure the queue is unchanged -/
-theorem delHeadCore_ok (da : Bool) (olds : List (Nat × List String)) (disk : List DFile) (dirs : List DDir)
+theorem delHeadCore_ok (da : DelCfg) (olds : List (Nat × List String)) (disk : List DFile) (dirs : List DDir)
     (h : (delHeadCore da olds disk dirs).2.2.2 = none) :
     ∃ pd adr, olds = (pd, adr) :: (delHeadCore da olds disk dirs).1 ∧
       ∀ a ∈ adr, DFile.acc pd a ∉ (delHeadCore da olds disk dirs).2.1 := by
@@ -125,14 +147,14 @@ theorem delHeadCore_ok (da : Bool) (olds : List (Nat × List String)) (disk : Li
         · rename_i _ hrd
           refine ⟨pd, adr, rfl, ?_⟩
           intro a ha hin
-          exact removeAll_gone _ _ hr _ (List.mem_map_of_mem ha) ((mem_removeTxts _ _ _).mp hin).1
+          exact removeAll_gone _ _ hr _ (List.mem_map_of_mem ha) (cleanDir_sub _ _ _ _ _ hin)
       · rename_i hda
         simp only [hda]
         refine ⟨pd, adr, rfl, ?_⟩
         intro a ha hin
         exact removeAll_gone _ _ hr _ (List.mem_map_of_mem ha) hin
 
-theorem delHeadCore_err (da : Bool) (olds : List (Nat × List String)) (disk : List DFile) (dirs : List DDir)
+theorem delHeadCore_err (da : DelCfg) (olds : List (Nat × List String)) (disk : List DFile) (dirs : List DDir)
     (h : (delHeadCore da olds disk dirs).2.2.2 ≠ none) : (delHeadCore da olds disk dirs).1 = olds := by
   unfold delHeadCore at h ⊢
   split
